@@ -79,6 +79,12 @@ impl Subject for SlruSubj {
             44 => vec![c.protected_cap() as i128],
             25 => {
                 let c2 = c.clone();
+                // the clone answers every accessor like the original at this moment
+                if (c2.cap(), c2.len(), c2.is_empty(), c2.protected_cap(), c2.probationary_cap(), c2.protected_len(), c2.probationary_len())
+                    != (c.cap(), c.len(), c.is_empty(), c.protected_cap(), c.probationary_cap(), c.protected_len(), c.probationary_len())
+                {
+                    return vec![-7];
+                }
                 let old = std::mem::replace(c, c2);
                 let n = old.len() as u64;
                 let before = ledger_drain();
